@@ -3,6 +3,7 @@ package chk
 import (
 	"fmt"
 	"go/types"
+	"reflect"
 	"strings"
 	"sync"
 
@@ -457,4 +458,33 @@ func (m *Model) Func(pkg *ssa.Package, name string) *ssa.Function {
 		return nil
 	}
 	return pkg.Func(name)
+}
+
+// AnchorNames lists the anchors of the model (its pointer-typed fields); nil
+// reports those that did not resolve.
+func (m *Model) AnchorNames(onlyNil bool) []string {
+	var out []string
+	v := reflect.ValueOf(m).Elem()
+	t := v.Type()
+	for i := 0; i < t.NumField(); i++ {
+		f := v.Field(i)
+		if f.Kind() != reflect.Ptr {
+			continue
+		}
+		if onlyNil && !f.IsNil() {
+			continue
+		}
+		out = append(out, t.Field(i).Name)
+	}
+	return out
+}
+
+// Without returns a copy of the model in which the named anchor is missing.
+func (m *Model) Without(name string) *Model {
+	cp := *m
+	f := reflect.ValueOf(&cp).Elem().FieldByName(name)
+	if f.IsValid() && f.CanSet() {
+		f.Set(reflect.Zero(f.Type()))
+	}
+	return &cp
 }
